@@ -255,6 +255,7 @@ func cmdSweep(args []string) int {
 	}
 	theClosures = buildClosureInfo(p)
 	theProg = p
+	knownList, _ := loadKnown(verifDir())
 	for _, id := range sortedProps() {
 		spec := registry[id]
 		func() {
@@ -278,7 +279,15 @@ func cmdSweep(args []string) int {
 					if o.Undecided {
 						fmt.Printf("UNDEC %s.%s %s | %s\n", id, rr.ID, o.Key, o.Detail)
 					} else if !o.OK {
-						fmt.Printf("FAIL %s.%s %s @ %s\n", id, rr.ID, o.Key, o.Pos)
+						listed := false
+						for _, k := range knownList {
+							if k.Status == "known" && k.Property == id && k.Rule == rr.ID && k.Key == o.Key {
+								listed = true
+							}
+						}
+						if !listed { // (a listed known finding is reported by `run`, not by this development sweep)
+							fmt.Printf("FAIL %s.%s %s @ %s\n", id, rr.ID, o.Key, o.Pos)
+						}
 					}
 				}
 			}
